@@ -531,6 +531,25 @@ def fam_closures():
                         if w in (s_func, s_anon, s_module) and depth == 2:
                             continue
                         add("late-%s-%s-%s-%s-%d" % (w.__name__[2:], bind, act, esc, depth), prog)
+    # a named function and its OWN name: the name is an ordinary binding of the scope the definition ran in -- an invocation does not bind it again
+    rec = lambda nm, callee: FnStmt(nm, ["n"], [If(Bin("==", Id("n"), I(0)), [Ret(I(0))]), Ret(Bin("+", Call(callee, Bin("-", Id("n"), I(1))), I(1)))])
+    add("selfname-alias-rebound", [rec("f", "f"), Let("g", Id("f")), FnStmt("f", ["n"], [Ret(I(100))]), P(Call("g", I(3))), P(Call("f", I(3))), Ret(I(0))])
+    add("selfname-alias-rebound-value", [rec("f", "f"), Let("g", Id("f")), Let("f", Fn(["n"], [Ret(I(50))])), P(Call("g", I(2))), Ret(I(0))])
+    add("selfname-self-replacing", [FnStmt("f", [], [Let("f", Fn([], [Ret(I(2))])), Ret(I(1))]), P(Call("f")), P(Call("f")), P(Call("f")), Ret(I(0))])
+    add("selfname-self-replacing-nested", [FnStmt("mk", [], [FnStmt("h", [], [Let("h", I(7)), Ret(I(1))]), P(Call("h")), P(Nilco(Id("h"), S("undef"))), Ret(I(0))]), E(Call("mk")), P(Nilco(Id("h"), S("undef"))), Ret(I(0))])
+    add("selfname-assign-in-body", [FnStmt("f", ["n"], [Let("f", I(5)), Ret(Id("n"))]), P(Call("f", I(1))), P(Nilco(Id("f"), S("undef"))), Ret(I(0))])
+    add("selfname-var-in-body", [FnStmt("f", ["n"], [Var(["f"], [I(5)]), Ret(Bin("+", Id("f"), Id("n")))]), P(Call("f", I(1))), P(Call("f", I(2))), Ret(I(0))])
+    add("selfname-deleted", [rec("f", "f"), Let("g", Id("f")), Delete(S("f")), Try([P(Call("g", I(2)))], "e", [P(60)]), P(Call("g", I(0))), Ret(I(0))])
+    add("selfname-param-shadows", [FnStmt("f", ["f"], [Ret(Id("f"))]), P(Call("f", I(4))), P(Call("f", I(5))), Ret(I(0))])
+    add("selfname-in-module", [Module("mo", [rec("f", "f")]), Let("g", Member(Id("mo"), "f")), FnStmt("f", ["n"], [Ret(I(100))]), P(Call("g", I(2))), P(Nilco(Call("f", I(2)), S("x"))), Ret(I(0))])
+    add("selfname-mutual-rebound", [rec("ev", "od"), rec("od", "ev"), Let("g", Id("ev")), FnStmt("od", ["n"], [Ret(I(100))]), P(Call("g", I(3))), Ret(I(0))])
+    add("selfname-closure-counter", [FnStmt("f", [], [Let("c", Bin("+", Nilco(Id("c"), I(0)), I(1))), Ret(Id("c"))]), P(Call("f")), P(Call("f")), P(Nilco(Id("c"), S("undef"))), Ret(I(0))])
+    # a name is bound when ITS statement runs, not earlier: uses before a later `func` statement of the same list see the enclosing binding (or none)
+    add("nohoist-call-before-def", [Try([P(Call("late", I(1)))], "e", [P(60)]), FnStmt("late", ["a"], [Ret(Id("a"))]), P(Call("late", I(2))), Ret(I(0))])
+    add("nohoist-inner-after-assign", [Let("x", I(10)), FnStmt("k", [], [Let("x", I(20)), FnStmt("x", [], [Ret(I(0))]), Ret(I(1))]), E(Call("k")), P(Id("x")), Ret(I(0))])
+    add("nohoist-read-outer-before-inner-def", [FnStmt("h", [], [Ret(I(1))]), FnStmt("k", [], [P(Call("h")), FnStmt("h", [], [Ret(I(2))]), P(Call("h")), Ret(I(0))]), E(Call("k")), P(Call("h")), Ret(I(0))])
+    add("nohoist-in-branch", [If(B(True), [P(Nilco(Id("bf"), S("undef"))), FnStmt("bf", [], [Ret(I(1))]), P(Call("bf"))]), P(Nilco(Id("bf"), S("undef"))), Ret(I(0))])
+    add("nohoist-in-loop", [ForIn("i", L(I(1), I(2)), [P(Nilco(Id("lf"), S("undef"))), FnStmt("lf", [], [Ret(I(1))])]), Ret(I(0))])
     return out
 
 
